@@ -9,6 +9,10 @@
 //!                                  -> ok packs=<n> {T|D:<id>=<len:sum>|-}*
 //!   E  <seed> <ver> <comp> <chunker> <csize> <cmin> <cmax> <dpack> <tpack> <entries> <depth> <maxfile> <flags>
 //!                                  full backup + every read-back                -> ok k=v ... | FAIL sig=<s> what=<...>
+//!   S  <seed> <chunker> <csize> <cmin> <cmax> <nfiles> <maxfile> <style>
+//!                                  backup through Repository::archive from an in-memory ReadSource whose
+//!                                  readers fragment reads and inject ErrorKind::Interrupted; dump and
+//!                                  read_file_at must equal the source bytes       -> ok k=v ... | FAIL ...
 use std::collections::{BTreeMap, BTreeSet};
 use std::ffi::OsStr;
 use std::os::unix::ffi::{OsStrExt, OsStringExt};
@@ -211,7 +215,42 @@ fn rand_name(r: &mut SplitMix, i: usize) -> Vec<u8> {
     v
 }
 
-fn build_tree(c: &E2eCfg, r: &mut SplitMix) -> Vec<Entry> {
+/// (path, floor seconds, nanoseconds) of entries whose mtime is set after `materialize`
+type SpecialTimes = Vec<(PathBuf, i64, u32)>;
+
+fn set_time_exact(p: &Path, secs: i64, nanos: u32) -> std::io::Result<()> {
+    use std::time::{Duration, UNIX_EPOCH};
+    let f = std::fs::File::open(p)?;
+    let t = if secs >= 0 {
+        UNIX_EPOCH + Duration::new(secs as u64, nanos)
+    } else {
+        UNIX_EPOCH - Duration::new(secs.unsigned_abs(), 0) + Duration::new(0, nanos)
+    };
+    f.set_modified(t)
+}
+
+/// apply the special mtimes (files first, then directories deepest first); returns how many of
+/// them the file system stored exactly
+fn apply_special_times(root: &Path, sp: &SpecialTimes) -> anyhow::Result<usize> {
+    let mut order: Vec<&(PathBuf, i64, u32)> = sp.iter().collect();
+    order.sort_by_key(|(p, _, _)| {
+        let is_dir = root.join(p).is_dir();
+        (is_dir, std::cmp::Reverse(p.components().count()))
+    });
+    for (p, s, n) in &order {
+        set_time_exact(&root.join(p), *s, *n)?;
+    }
+    let mut exact = 0;
+    for (p, s, n) in sp {
+        let md = std::fs::symlink_metadata(root.join(p))?;
+        if (md.mtime(), md.mtime_nsec()) == (*s, i64::from(*n)) {
+            exact += 1;
+        }
+    }
+    Ok(exact)
+}
+
+fn build_tree(c: &E2eCfg, r: &mut SplitMix) -> (Vec<Entry>, SpecialTimes) {
     let tp = TreeParams {
         max_entries: c.entries,
         max_depth: c.depth,
@@ -282,11 +321,51 @@ fn build_tree(c: &E2eCfg, r: &mut SplitMix) -> Vec<Entry> {
             es.push(Entry { path: PathBuf::from(format!("a_fill{k:02}")), kind: Kind::File(Content::Random { seed: r.next(), len: 40 + k }), mode: 0o644, mtime: mt(r) });
         }
     }
+    // a directory whose entries need escaping next to plain siblings (stored order = raw names,
+    // escaped forms start with a backslash): every one of them is looked up BY PATH
+    es.push(Entry { path: PathBuf::from("oddsib"), kind: Kind::Dir, mode: 0o755, mtime: mt(r) });
+    let odd: [&[u8]; 14] = [b"\"quoted\".txt", b"A", b"M", b"a", b"z", b"\\back", b"tab\there", b"nl\nname", b"\xff\xfe", b"\xc3\xa9", b"0", b"~", b"[", b"]"];
+    for (k, name) in odd.iter().enumerate() {
+        let nm = std::ffi::OsString::from_vec(name.to_vec());
+        es.push(Entry { path: PathBuf::from("oddsib").join(nm), kind: Kind::File(Content::Random { seed: r.next(), len: 10 + k }), mode: 0o644, mtime: mt(r) });
+    }
+    let qd = PathBuf::from("oddsib").join(std::ffi::OsString::from_vec(b"\"d\\ir\"".to_vec()));
+    es.push(Entry { path: qd.clone(), kind: Kind::Dir, mode: 0o755, mtime: mt(r) });
+    es.push(Entry { path: qd.join("in\"side"), kind: Kind::File(Content::Literal(b"inside".to_vec())), mode: 0o600, mtime: mt(r) });
+    es.push(Entry { path: qd.join("plain"), kind: Kind::Symlink(b"../A".to_vec()), mode: 0o777, mtime: mt(r) });
+    // modification times before, at and around the epoch, with and without a sub-second part, and far future
+    let mut sp: SpecialTimes = Vec::new();
+    es.push(Entry { path: PathBuf::from("times"), kind: Kind::Dir, mode: 0o755, mtime: mt(r) });
+    let fixed: [(&str, i64, u32); 9] = [
+        ("neg_frac", -2, 750_000_000),
+        ("neg_one_ns", -1, 999_999_999),
+        ("neg_tiny", -1_000_000, 1),
+        ("neg_whole", -86_400, 0),
+        ("epoch", 0, 0),
+        ("epoch_frac", 0, 999_999_999),
+        ("pos_small", 1, 500_000_000),
+        ("y1901", -2_145_916_800, 250_000_000),
+        ("y2200", 7_258_118_400, 123_456_789),
+    ];
+    for (n, s0, n0) in fixed {
+        let p = PathBuf::from("times").join(n);
+        es.push(Entry { path: p.clone(), kind: Kind::File(Content::Literal(n.as_bytes().to_vec())), mode: 0o644, mtime: mt(r) });
+        sp.push((p, s0, n0));
+    }
+    for k in 0..3 {
+        let p = PathBuf::from("times").join(format!("rnd{k}"));
+        es.push(Entry { path: p.clone(), kind: Kind::File(Content::Random { seed: r.next(), len: 5 }), mode: 0o644, mtime: mt(r) });
+        sp.push((p, -(r.below(2_000_000_000) as i64) - 1, r.below(1_000_000_000) as u32));
+    }
+    let nd = PathBuf::from("times").join("negdir");
+    es.push(Entry { path: nd.clone(), kind: Kind::Dir, mode: 0o750, mtime: mt(r) });
+    es.push(Entry { path: nd.join("f"), kind: Kind::File(Content::Literal(b"f".to_vec())), mode: 0o644, mtime: mt(r) });
+    sp.push((nd, -1000, 500_000_000));
     if c.flags & F_COLLIDE_EMPTY != 0 {
         es.push(Entry { path: PathBuf::from("a_coll"), kind: Kind::File(Content::Literal(b"{\"nodes\":[]}\n".to_vec())), mode: 0o644, mtime: mt(r) });
         es.push(Entry { path: PathBuf::from("z_empty"), kind: Kind::Dir, mode: 0o755, mtime: mt(r) });
     }
-    es
+    (es, sp)
 }
 
 /// every (tree id, serialized bytes) of the snapshot, walked from the root; stops below unreadable trees
@@ -319,6 +398,14 @@ fn walk_trees<S: IndexedFull>(repo: &Repository<S>, root: TreeId) -> (BTreeMap<I
         }
     }
     (trees, missing, data)
+}
+
+/// the `Message:` part of a RusticError (its Display starts with a generic sentence)
+fn short_err(e: &dyn std::fmt::Display) -> String {
+    let s = format!("{e:#}").replace('\n', " ");
+    let m = s.find("Message:").map_or(s.as_str(), |i| &s[i..]);
+    let m = m.find("Some additional details").map_or(m, |i| &m[..i]);
+    m.trim().chars().take(160).collect()
 }
 
 struct Fail {
@@ -369,11 +456,12 @@ fn e2e_case(t: &mut Toks) -> Result<String, Fail> {
     };
     let infra = |e: anyhow::Error| fail("infra", format!("harness step failed: {e:#}"));
     let mut r = SplitMix(c.seed);
-    let mut entries = build_tree(&c, &mut r);
+    let (mut entries, specials) = build_tree(&c, &mut r);
     let cfgo = config_of(&c);
     let mut collisions_planted = 0usize;
     let src = tempfile::tempdir().map_err(|e| infra(e.into()))?;
     materialize(src.path(), &entries).map_err(infra)?;
+    let times_exact = apply_special_times(src.path(), &specials).map_err(infra)?;
     if c.flags & F_COLLIDE_TREES != 0 {
         // pass 1 of the SAME directory into a scratch repository with the same configuration: learn
         // the serialized subtrees (they contain inode and ctime, so the directory must stay), then
@@ -459,6 +547,7 @@ fn e2e_case(t: &mut Toks) -> Result<String, Fail> {
         }
     }
     let (mut nfiles, mut nreads, mut nchunks, mut nbytes) = (0usize, 0usize, 0usize, 0u64);
+    let mut nbypath = 0usize;
     let mut data_ids: BTreeSet<Id> = BTreeSet::new();
     for (p, md) in &expected {
         let Some(n) = listed.get(p) else {
@@ -467,6 +556,33 @@ fn e2e_case(t: &mut Toks) -> Result<String, Fail> {
         };
         if n.name().as_bytes() != p.file_name().unwrap().as_bytes() {
             diffs.push(format!("ls: name differs {p:?} vs {:?}", n.name()));
+        }
+        // access BY PATH (what `snapshot:path` of restore / dump / ls and the vfs use): the entry that the
+        // listing shows must be found, and be the same node
+        let full = Path::new("src").join(p);
+        nbypath += 1;
+        match repo.node_from_path(snap.tree, &full) {
+            Ok(n2) if &n2 == n => {
+                if n2.is_file() && n2.meta.size <= 100_000 {
+                    let mut w = Vec::new();
+                    match repo.dump(&n2, &mut w) {
+                        Ok(()) if std::fs::read(src.path().join(p)).is_ok_and(|want| want == w) => {}
+                        Ok(()) => diffs.push(format!("by-path dump: content differs {p:?}")),
+                        Err(e) => diffs.push(format!("by-path dump: error {p:?}: {e:#}")),
+                    }
+                }
+            }
+            Ok(n2) => diffs.push(format!("by-path: node_from_path({full:?}) is not the listed node: {:?} vs {:?}", n2.name, n.name)),
+            Err(e) => diffs.push(format!("by-path: entry listed by ls is not found by node_from_path({full:?}): {}", short_err(&e))),
+        }
+        // the `<snapshot>:<path>` form re-reads the snapshot: names needing escapes, the oddsib directory and every 3rd entry
+        let needs_esc = p.as_os_str().as_bytes().iter().any(|b| *b == b'\\' || *b == b'"' || *b < 0x20 || *b >= 0x80);
+        if let Some(fs) = full.to_str().filter(|_| needs_esc || p.starts_with("oddsib") || nbypath % 3 == 0) {
+            match repo.node_from_snapshot_path(&format!("{sid}:{fs}"), |_| true) {
+                Ok(n2) if &n2 == n => {}
+                Ok(_) => diffs.push(format!("by-path: node_from_snapshot_path({fs:?}) is not the listed node")),
+                Err(e) => diffs.push(format!("by-path: entry listed by ls is not found by node_from_snapshot_path({fs:?}): {}", short_err(&e))),
+            }
         }
         let ft = md.file_type();
         let type_ok = (ft.is_dir() && n.is_dir()) || (ft.is_file() && n.is_file()) || (ft.is_symlink() && n.is_symlink());
@@ -487,8 +603,9 @@ fn e2e_case(t: &mut Toks) -> Result<String, Fail> {
         if unix != md.mode() & 0o7777 {
             diffs.push(format!("ls: mode differs {p:?}: {:o} vs {:o}", unix, md.mode() & 0o7777));
         }
+        let md_ns = i128::from(md.mtime()) * 1_000_000_000 + i128::from(md.mtime_nsec());
         match n.meta.mtime {
-            Some(ts) if (ts.as_second(), i64::from(ts.subsec_nanosecond())) == (md.mtime(), md.mtime_nsec()) => {}
+            Some(ts) if ts.as_nanosecond() == md_ns => {}
             other => diffs.push(format!("ls: mtime differs {p:?}: {other:?} vs {}.{}", md.mtime(), md.mtime_nsec())),
         }
         if ft.is_file() {
@@ -558,6 +675,32 @@ fn e2e_case(t: &mut Toks) -> Result<String, Fail> {
     let (trees, _, _) = walk_trees(&repo, snap.tree);
     let realized = trees.keys().filter(|i| data_ids.contains(*i)).count();
     let ntrees = trees.len();
+    // 3a. restore of sub-directories addressed by path: the one with the names needing escapes, and a random one
+    let mut dirs: Vec<&PathBuf> = expected.iter().filter(|(_, md)| md.is_dir()).map(|(p, _)| p).collect();
+    dirs.sort();
+    let mut chosen: Vec<PathBuf> = vec![PathBuf::from("oddsib")];
+    if !dirs.is_empty() {
+        chosen.push(dirs[r.below(dirs.len() as u64) as usize].clone());
+    }
+    let mut nsub = 0usize;
+    for dpath in &chosen {
+        let full = Path::new("src").join(dpath);
+        let node = repo
+            .node_from_path(snap.tree, &full)
+            .map_err(|e| fail("other", format!("sub-directory {full:?} listed by ls is not found by path: {}", short_err(&e))))?;
+        let sub = tempfile::tempdir().map_err(|e| infra(e.into()))?;
+        let ropts = RestoreOptions::default();
+        let lsd = repo.ls(&node, &LsOptions::default()).map_err(|e| fail("other", format!("ls of sub-directory failed: {e:#}")))?;
+        let dest = rustic_core::LocalDestination::new(sub.path().to_str().unwrap(), true, false).map_err(|e| infra(e.into()))?;
+        let plan = repo.prepare_restore(&ropts, lsd.clone(), &dest, false).map_err(|e| fail("other", format!("prepare_restore of sub-directory {full:?} failed: {e:#}")))?;
+        repo.restore(plan, &ropts, lsd, &dest).map_err(|e| fail("other", format!("restore of sub-directory {full:?} failed: {e:#}")))?;
+        let mut d = compare_dirs(&src.path().join(dpath), sub.path(), CmpOpts::default()).map_err(infra)?;
+        if !d.is_empty() {
+            d.truncate(6);
+            return Err(fail("other", format!("sub-directory {full:?} restored by path differs from the source: {}", d.join(" | "))));
+        }
+        nsub += 1;
+    }
     // 3. restore to disk
     let dst = tempfile::tempdir().map_err(|e| infra(e.into()))?;
     let repo = repo.drop_index();
@@ -581,9 +724,209 @@ fn e2e_case(t: &mut Toks) -> Result<String, Fail> {
     }
     let packs = rustic_core::ReadBackend::list_with_size(store.as_ref(), rustic_core::FileType::Pack).map(|l| l.len()).unwrap_or(0);
     Ok(format!(
-        "ok entries={} files={nfiles} bytes={nbytes} chunks={nchunks} trees={ntrees} packs={packs} reads={nreads} planted={collisions_planted} crosstype={realized}",
-        expected.len()
+        "ok entries={} files={nfiles} bytes={nbytes} chunks={nchunks} trees={ntrees} packs={packs} reads={nreads} planted={collisions_planted} crosstype={realized} bypath={nbypath} subrestores={nsub} times={} times_exact={times_exact}",
+        expected.len(),
+        specials.len()
     ))
+}
+
+// --------------------------------------------------------------------------- archive from a fragmenting source
+
+/// A reader over `data` that returns short reads and `ErrorKind::Interrupted` errors (both legal
+/// for `std::io::Read`: pipes, network file systems, signals).
+struct FragReader {
+    data: std::sync::Arc<Vec<u8>>,
+    pos: usize,
+    state: u64,
+    style: u64,
+    pending_eintr: bool,
+    next_hiccup: usize,
+    stats: std::sync::Arc<[std::sync::atomic::AtomicUsize; 3]>, // short reads, EINTR, short read directly followed by EINTR
+}
+impl FragReader {
+    fn rnd(&mut self, n: u64) -> u64 {
+        let mut r = SplitMix(self.state);
+        let v = r.below(n.max(1));
+        self.state = r.0;
+        v
+    }
+}
+impl std::io::Read for FragReader {
+    fn read(&mut self, buf: &mut [u8]) -> std::io::Result<usize> {
+        use std::sync::atomic::Ordering::Relaxed;
+        if buf.is_empty() {
+            return Ok(0);
+        }
+        if self.pending_eintr {
+            self.pending_eintr = false;
+            let _ = self.stats[1].fetch_add(1, Relaxed);
+            let _ = self.stats[2].fetch_add(1, Relaxed);
+            return Err(std::io::Error::new(std::io::ErrorKind::Interrupted, "EINTR"));
+        }
+        let remaining = self.data.len() - self.pos;
+        let mut n = buf.len().min(remaining);
+        if self.style == 0 {
+            // mostly full reads; every few 10 KiB a short read directly followed by EINTR
+            if self.pos >= self.next_hiccup && n > 1 {
+                n = 1 + self.rnd((n as u64 - 1).min(7)) as usize;
+                self.pending_eintr = true;
+                self.next_hiccup = self.pos + 3000 + self.rnd(40_000) as usize;
+            }
+        } else {
+            match self.rnd(10) {
+                0 => {
+                    let _ = self.stats[1].fetch_add(1, Relaxed);
+                    return Err(std::io::Error::new(std::io::ErrorKind::Interrupted, "EINTR"));
+                }
+                1 | 2 if n > 1 => {
+                    n = 1 + self.rnd((n as u64 - 1).min(if self.style == 1 { 4000 } else { 64 })) as usize;
+                    self.pending_eintr = self.rnd(2) == 0;
+                }
+                3 if n > 1 => n = 1 + self.rnd(n as u64 - 1) as usize,
+                _ => {}
+            }
+        }
+        if n < buf.len().min(remaining) {
+            let _ = self.stats[0].fetch_add(1, Relaxed);
+        }
+        buf[..n].copy_from_slice(&self.data[self.pos..self.pos + n]);
+        self.pos += n;
+        Ok(n)
+    }
+}
+
+struct MemSource {
+    files: Vec<(String, std::sync::Arc<Vec<u8>>)>,
+    seed: u64,
+    style: u64,
+    stats: std::sync::Arc<[std::sync::atomic::AtomicUsize; 3]>,
+}
+impl rustic_core::ReadSource for MemSource {
+    type Open = FragReader;
+    type Iter = std::vec::IntoIter<rustic_core::RusticResult<rustic_core::ReadSourceEntry<FragReader>>>;
+    fn size(&self) -> rustic_core::RusticResult<Option<u64>> {
+        Ok(Some(self.files.iter().map(|(_, d)| d.len() as u64).sum()))
+    }
+    fn entries(&self) -> Self::Iter {
+        self.files
+            .iter()
+            .enumerate()
+            .map(|(i, (name, data))| {
+                let meta = Metadata { size: data.len() as u64, mode: Some(0o644), ..Default::default() };
+                Ok(rustic_core::ReadSourceEntry {
+                    path: PathBuf::from(name),
+                    node: Node::new_node(OsStr::new(name), NodeType::File, meta),
+                    open: Some(FragReader {
+                        data: data.clone(),
+                        pos: 0,
+                        state: self.seed ^ (i as u64 + 1).wrapping_mul(0x9E37_79B9_7F4A_7C15),
+                        style: self.style,
+                        pending_eintr: false,
+                        next_hiccup: 5000,
+                        stats: self.stats.clone(),
+                    }),
+                })
+            })
+            .collect::<Vec<_>>()
+            .into_iter()
+    }
+}
+
+fn stream_case(t: &mut Toks) -> Result<String, Fail> {
+    use std::sync::atomic::Ordering::Relaxed;
+    let (seed, chunker, csize, cmin, cmax) = (t.u(), t.u(), t.u(), t.u(), t.u());
+    let (nfiles, maxfile, style) = (t.u() as usize, t.u() as usize, t.u());
+    let infra = |e: anyhow::Error| fail("infra", format!("harness step failed: {e:#}"));
+    let mut r = SplitMix(seed);
+    let mut cfg = ConfigOptions::default();
+    if chunker == 1 {
+        cfg = cfg.set_chunker(Chunker::FixedSize);
+    }
+    if csize != 0 {
+        cfg = cfg.set_chunk_size(bytesize::ByteSize(csize));
+    }
+    if cmin != 0 {
+        cfg = cfg.set_chunk_min_size(bytesize::ByteSize(cmin));
+    }
+    if cmax != 0 {
+        cfg = cfg.set_chunk_max_size(bytesize::ByteSize(cmax));
+    }
+    let mut files = Vec::new();
+    for i in 0..nfiles {
+        let len = match r.below(5) {
+            0 => r.below(100) as usize,
+            1 => maxfile,
+            _ => r.below(maxfile.max(1) as u64) as usize,
+        };
+        let c = match r.below(5) {
+            0 => Content::Zero { len },
+            1 => Content::Periodic { seed: r.next(), period: 1 + r.below(5000) as usize, len },
+            _ => Content::Random { seed: r.next(), len },
+        };
+        files.push((format!("f{i:02}"), std::sync::Arc::new(c.bytes())));
+    }
+    let stats = std::sync::Arc::new([const { std::sync::atomic::AtomicUsize::new(0) }; 3]);
+    let source = MemSource { files: files.clone(), seed, style, stats: stats.clone() };
+    let (repo, _key) = init_repo(mem(), None, &cfg, &repo_opts()).map_err(|e| fail("config-refused", format!("{e:#}")))?;
+    let repo = repo.to_indexed_ids().map_err(|e| infra(e.into()))?;
+    let paths: Vec<PathBuf> = files.iter().map(|(n, _)| PathBuf::from(n)).collect();
+    let snap = repo
+        .archive(&rustic_core::BackupOptions::default(), &source, SnapshotFile::default(), &paths)
+        .map_err(|e| fail("backup-error", format!("archive from a fragmenting reader failed: {e:#}")))?;
+    let repo = repo.to_indexed().map_err(|e| infra(e.into()))?;
+    let sid = snap.id.to_hex().to_string();
+    let mut diffs = Vec::new();
+    let (mut nchunks, mut nbytes) = (0usize, 0usize);
+    for (name, data) in &files {
+        let node = match repo.node_from_snapshot_path(&format!("{sid}:{name}"), |_| true) {
+            Ok(n) => n,
+            Err(e) => {
+                diffs.push(format!("{name}: not found in the snapshot: {}", short_err(&e)));
+                continue;
+            }
+        };
+        nchunks += node.content.as_ref().map_or(0, Vec::len);
+        nbytes += data.len();
+        let mut w = Vec::new();
+        match repo.dump(&node, &mut w) {
+            Ok(()) if &w == &**data => {}
+            Ok(()) => {
+                let first = w.iter().zip(data.iter()).position(|(a, b)| a != b).unwrap_or(w.len().min(data.len()));
+                diffs.push(format!("{name}: dump differs from the bytes the reader delivered ({} vs {} bytes, first difference at {first})", w.len(), data.len()));
+            }
+            Err(e) => diffs.push(format!("{name}: dump error {e:#}")),
+        }
+        if node.meta.size != data.len() as u64 {
+            diffs.push(format!("{name}: node size {} vs {} bytes delivered", node.meta.size, data.len()));
+        }
+        if let Ok(of) = repo.open_file(&node) {
+            for _ in 0..4 {
+                let off = r.below(data.len() as u64 + 2) as usize;
+                let l = r.below(20_000) as usize;
+                let exp: &[u8] = if off >= data.len() { &[] } else { &data[off..(off + l).min(data.len())] };
+                match repo.read_file_at(&of, off, l) {
+                    Ok(b) if &b[..] == exp => {}
+                    _ => diffs.push(format!("{name}: read_file_at({off},{l}) differs from the source")),
+                }
+            }
+        }
+    }
+    if !diffs.is_empty() {
+        diffs.truncate(6);
+        return Err(fail("other", format!("content stored from a reader with short reads / EINTR differs: {}", diffs.join(" | "))));
+    }
+    Ok(format!(
+        "ok files={} bytes={nbytes} chunks={nchunks} short_reads={} eintr={} short_then_eintr={}",
+        files.len(),
+        stats[0].load(Relaxed),
+        stats[1].load(Relaxed),
+        stats[2].load(Relaxed)
+    ))
+}
+
+/// result lines must stay one line whatever bytes file names put into error texts
+fn one_line(s: &str) -> String {
+    s.chars().map(|c| if c.is_control() || c == '\u{2028}' || c == '\u{2029}' { ' ' } else { c }).collect()
 }
 
 fn run_line(line: &str) -> String {
@@ -595,11 +938,15 @@ fn run_line(line: &str) -> String {
         "P" => pipe_case(&mut t),
         "E" => match e2e_case(&mut t) {
             Ok(s) => Ok(s),
-            Err(f) => Ok(format!("FAIL sig={} what={}", f.sig, f.what.replace('\n', " "))),
+            Err(f) => Ok(format!("FAIL sig={} what={}", f.sig, one_line(&f.what))),
+        },
+        "S" => match stream_case(&mut t) {
+            Ok(s) => Ok(s),
+            Err(f) => Ok(format!("FAIL sig={} what={}", f.sig, one_line(&f.what))),
         },
         m => Ok(format!("unknown-mode {m}")),
     };
-    r.unwrap_or_else(|e| format!("error {}", format!("{e:#}").replace('\n', " ")))
+    r.unwrap_or_else(|e| format!("error {}", one_line(&format!("{e:#}"))))
 }
 
 fn main() {
